@@ -94,6 +94,27 @@ def check_navigation(root):
             continue
         if sorted(map(id, seen)) != sorted(map(id, alln)):
             bad.append(f'{W.__name__} visited {len(seen)} nodes {[type(c).__name__ for c in seen]}, the tree has {len(alln)}')
+    # dispatch: a walker method named after a node's class (or the nearest base class that has one) receives the node - also in a
+    # walker SUBCLASS defined after its parent class has already walked such nodes
+    names = sorted({type(n).__name__ for n in alln})
+    log = []
+
+    class P(DepthFirstWalker):
+        def walk_Node(self, node, *a, **k):
+            log.append(('Node', type(node).__name__))
+            return node
+    try:
+        P().walk(root)
+        log.clear()
+        S = type('S', (P,), {f'walk_{nm}': (lambda nm: lambda self, node, *a, **k: log.append((nm, type(node).__name__)) or node)(nm)
+                             for nm in names})
+        S().walk(root)
+        wrong = [(m, c) for m, c in log if m != c]
+        if wrong or sorted(c for _m, c in log) != sorted(type(n).__name__ for n in alln):
+            bad.append(f'walker subclass defined after its parent walked the tree: nodes dispatched to {wrong[:4]} '
+                       f'({len(log)} calls for {len(alln)} nodes)')
+    except Exception as e:  # noqa: BLE001
+        bad.append(f'walker subclass dispatch raised {type(e).__name__}: {e}')
     return bad
 
 
@@ -117,6 +138,23 @@ def run_obj_case(case):
         gensem = [v for k, v in ns.items() if k.endswith('ModelBuilderSemantics') and isinstance(v, type) and v.__module__ == ns['__name__']]
         # after the synthesized-class model was compiled: the same grammar compiled against the generated module's classes
         typed = tatsu.compile(case['ebnf'], typedefs=[mod])
+        # hand-written model classes in the style of docs/mini-tutorial.rst: Node subclasses that declare their attributes as plain
+        # class attributes
+        from tatsu.objectmodel import Node
+        cmod = types.ModuleType('classic_' + str(abs(hash(case['ebnf']))))
+        sys.modules[cmod.__name__] = cmod
+        classic = {}
+        for cname, bases, attrs in case.get('classes') or []:
+            chain = [cname, *bases]                      # name::T::Base::Top : T(Base), Base(Top), Top(Node)
+            for i in range(len(chain) - 1, -1, -1):
+                nm = chain[i]
+                if nm not in classic:
+                    parent = classic[chain[i + 1]] if i + 1 < len(chain) else Node
+                    classic[nm] = type(nm, (parent,), {'__module__': cmod.__name__})
+            for a in attrs:
+                setattr(classic[cname], a, None)
+        for k2, v2 in classic.items():
+            setattr(cmod, k2, v2)
         out['compile'] = {'k': 'ok'}
     except Exception as e:  # noqa: BLE001
         import traceback
@@ -128,7 +166,9 @@ def run_obj_case(case):
         for how, fn in (('asmodel', lambda: model.parse(text, **case.get('settings', {}))),
                         ('builder', lambda: plain.parse(text, semantics=ModelBuilderSemantics(), **case.get('settings', {}))),
                         ('generated', lambda: plain.parse(text, semantics=gensem[-1](), **case.get('settings', {}))),
-                        ('typedefs', lambda: typed.parse(text, **case.get('settings', {})))):
+                        ('typedefs', lambda: typed.parse(text, **case.get('settings', {}))),
+                        *([('classic', lambda: plain.parse(text, semantics=ModelBuilderSemantics(constructors=list(classic.values())),
+                                                           **case.get('settings', {})))] if classic else [])):
             try:
                 v = fn()
                 r[how] = {'k': 'ok', 'v': proj(v), 'nav': check_navigation(v)}
